@@ -1091,6 +1091,113 @@ def run_real(case, f1=None, f2=None):
     return out, et
 
 
+def run_fork(case):
+    """two pipelines forked from ONE table: the stages before the last one are run once, then the last stage of the case and the
+    alternative last stage case["fork"]["stage"] (same filter class, other parameters) are applied by filter objects of their own to the
+    very same row objects.  The rows of the two forks are compared pairwise with ==, in both directions (and their .feats when both
+    forks end in LabelRows): lazy_a == lazy_b iff eager_a == eager_b.
+    -> None (no fork) | {"skip": why} | {"pipe_err": name} | {"cmp": [{"i", "what", "exp", "ab", "ba"}]}"""
+    fk = case.get("fork")
+    if not fk or not case["stages"] or case.get("nonuniform") or case.get("nested"):
+        return None
+    t = tables_of(case)[0]
+    stages = t["stages"]
+    alt = fk["stage"]
+    try:
+        ea = eager_table(dict(t, stages=stages))
+        eb = eager_table(dict(t, stages=stages[:-1] + [alt]))
+    except Undefined as u:
+        return {"skip": "eager-undefined"}
+    if len(ea) != len(eb):
+        return {"skip": "row-count"}
+    try:
+        mid = run_pipeline(make_filters(stages[:-1]), base_rows(t))
+        ra = run_pipeline(make_filters(stages[-1:]), list(mid))
+        rb = run_pipeline(make_filters([alt]), list(mid))
+    except Exception as ex:
+        return {"pipe_err": type(ex).__name__}
+    if len(ra) != len(ea) or len(rb) != len(eb):
+        return {"skip": "row-count"}
+    both_label = stages[-1]["op"] == "label" and alt["op"] == "label"
+
+    def cmp(x, y):
+        try:
+            return bool(x == y)
+        except Exception as ex:
+            return "raises " + type(ex).__name__
+    out = []
+    for i, (x, y, p, q) in enumerate(zip(ra, rb, ea, eb)):
+        if has_err(p) or has_err(q):
+            continue
+        todo = [("row", x, y, p, q)]
+        if both_label:
+            try:
+                todo.append(("feats", x.feats, y.feats, eager_feats(p), eager_feats(q)))
+            except (Undefined, AttributeError):
+                pass
+        for what, a, b, pa, pb in todo:
+            if has_err(pa) or has_err(pb):
+                continue
+            out.append({"i": i, "what": what, "exp": bool(eager_plain(pa) == eager_plain(pb)), "ab": cmp(a, b), "ba": cmp(b, a)})
+    return {"cmp": out}
+
+
+def fork_stage(rng, st):
+    """the same filter class with other parameters (None: no variation for this stage)"""
+    op = st["op"]
+    if op == "drop" and st["cols"]:
+        cols = list(st["cols"])
+        how = rng.below(3)
+        if how == 0 and len(cols) > 1:
+            del cols[rng.below(len(cols))]
+        elif how == 1:
+            extra = rng.choice([0, 1, 2] if isinstance(cols[0], int) else ["a", "b", "c"])
+            cols = cols + [extra] if extra not in cols else [c for c in cols if c != extra] or cols + [1 if extra != 1 else 0]
+        else:
+            j = rng.below(len(cols))
+            c = cols[j]
+            cols[j] = (c + 1 if c == 0 or rng.chance(0.5) else c - 1) if isinstance(c, int) else rng.choice([n for n in NAMES[:4] if n != c])
+        if len(set(map(str, cols))) != len(cols) or cols == st["cols"]:
+            return None
+        return dict(st, cols=cols)
+    if op == "encode":
+        if "seq" in st and st["seq"]:
+            seq = list(st["seq"])
+            j = rng.below(len(seq))
+            seq[j] = rng.choice([e for e in ENCS if e != seq[j]])
+            return dict(st, seq=seq)
+        if st.get("map"):
+            m = [list(kv) for kv in st["map"]]
+            j = rng.below(len(m))
+            if len(m) > 1 and rng.chance(0.3):
+                del m[j]
+            else:
+                m[j][1] = rng.choice([e for e in ENCS if e != m[j][1]])
+            return dict(st, map=m)
+        return None
+    if op == "label":
+        k = st["k"]
+        if isinstance(k, int):
+            return dict(st, k=k + 1 if k == 0 or rng.chance(0.5) else k - 1)
+        return dict(st, k=rng.choice([n for n in NAMES[:4] if n != k]))
+    if op == "head":
+        if "names" in st and len(st["names"]) > 1:
+            names = list(st["names"])
+            i, j = rng.below(len(names)), rng.below(len(names))
+            if i == j:
+                return None
+            names[i], names[j] = names[j], names[i]
+            return dict(st, names=names)
+        if st.get("map") and len(st["map"]) > 1:
+            m = [list(kv) for kv in st["map"]]
+            i, j = rng.below(len(m)), rng.below(len(m))
+            if i == j:
+                return None
+            m[i][1], m[j][1] = m[j][1], m[i][1]
+            return dict(st, map=m)
+    return None
+
+
 def source_snapshot(rows):
     """canonical form of the source containers behind the base rows (the plain lists / dicts themselves, or the list / dict a
     LazyDense / LazySparse holds or loads from), nested cells included"""
@@ -1312,7 +1419,7 @@ class C13(Property):
             "EncodeCatRows(onehot|onehot_tuple|string|None); 3-10 accesses (position incl. len and len+1, name, iter, len, keys, items, copy, "
             "headers, == same/reflected/lazy/perturbed, label, tipe, feats.<access>) on one row, the same accesses permuted and then repeated "
             "on a fresh copy; in 45 % of the cases the SAME filter objects then process one or two further tables (the first table with columns permuted / "
-            "one removed / one added, headers and base encoders moving with their column, or converted dense<->sparse), each judged against its own eager model and sent through the model's `session` in one request (theorem filter_stateless); 4 % of the multi-row dense tables are jagged and 30 % of the multi-row plain sparse tables under EncodeCatRows have a later dict with other keys / categoricals than the first (flag nonuniform: only the first-row model tableD1 / tableS1 is compared); 6 % of the cases are 2-3 dense tables that differ only in the header map (own HeadRows(list|mapping in dict/MappingProxyType/ChainMap/custom Mapping flavours), shared LabelRows, by-name access on feats), 5 % have cells that are lists/dicts holding categoricals under EncodeCatRows ((B) only); every case compares its source data deeply before/after; 22 % of the accesses are made on a copy of the row taken at that point of the history (copy.copy / copy.deepcopy / pickle round trip; pickle is skipped where the object holds a lambda or closure), the copy must be indistinguishable from the eager row and the original unchanged; the model receives the copy steps as Acc.clone (theorems access_after_clone, clone_leaves_original); non-trivial = at least one stage or a lazy base, and at least 3 accesses with an eager value; distinct by canonical JSON")
+            "one removed / one added, headers and base encoders moving with their column, or converted dense<->sparse), each judged against its own eager model and sent through the model's `session` in one request (theorem filter_stateless); 4 % of the multi-row dense tables are jagged and 30 % of the multi-row plain sparse tables under EncodeCatRows have a later dict with other keys / categoricals than the first (flag nonuniform: only the first-row model tableD1 / tableS1 is compared); 6 % of the cases are 2-3 dense tables that differ only in the header map (own HeadRows(list|mapping in dict/MappingProxyType/ChainMap/custom Mapping flavours), shared LabelRows, by-name access on feats), 5 % have cells that are lists/dicts holding categoricals under EncodeCatRows ((B) only); 25 % of the cases with stages carry a fork: the stages before the last run once, then the last stage and a variant of it (same filter class, other drop columns / encoders / label / header names) are applied to the SAME row objects and the rows (and .feats for two labels) of the two forks are compared pairwise with == in both directions: lazy_a == lazy_b iff eager_a == eager_b; every case compares its source data deeply before/after; 22 % of the accesses are made on a copy of the row taken at that point of the history (copy.copy / copy.deepcopy / pickle round trip; pickle is skipped where the object holds a lambda or closure), the copy must be indistinguishable from the eager row and the original unchanged; the model receives the copy steps as Acc.clone (theorems access_after_clone, clone_leaves_original); non-trivial = at least one stage or a lazy base, and at least 3 accesses with an eager value; distinct by canonical JSON")
     trusted_base = [
         "cells are small ints, decimal-integer strings, short words, '?', '', None and Categoricals; float() of ARFF numerics is modelled on "
         "integer literals only (an integer-valued float: equal to the int, str() gives 'N.0'; compared as an exact rational)",
@@ -1905,6 +2012,15 @@ class C13(Property):
         return case
 
     def generate(self, rng, tier):
+        case = self.generate0(rng, tier)
+        if case.get("stages") and not case.get("nonuniform") and not case.get("nested") and rng.chance(0.25):
+            # a second pipeline forked from the same table: same filter class at the top, other parameters; rows compared pairwise with ==
+            alt = fork_stage(rng, case["stages"][-1])
+            if alt is not None:
+                case["fork"] = {"stage": alt}
+        return case
+
+    def generate0(self, rng, tier):
         r = rng.below(100)
         if r < 6:
             return self.gen_remap_case(rng)
@@ -2077,6 +2193,20 @@ class C13(Property):
                 [{"a": "iter"}, {"a": "len"}, {"a": "name", "k": "b"}, {"a": "headers"}, {"a": "pos", "i": 1}], 1)
         nu["nonuniform"] = True
         cs.append(nu)
+        # two pipelines forked from one table, rows compared pairwise with == (lazy view against lazy view of the same class over the same row object)
+        def fork(c, alt):
+            c["fork"] = {"stage": alt}
+            return c
+        cs.append(fork(mk("dense", plain, [["1", "2", "3"], ["4", "4", "4"]], [head, {"op": "drop", "cols": ["a"], "pred": None}], [{"a": "iter"}]), {"op": "drop", "cols": ["c"], "pred": None}))
+        cs.append(fork(mk("dense", plain, [["1", "2", "3"], ["4", "4", "4"]], [{"op": "drop", "cols": [0], "pred": None}], [{"a": "iter"}]), {"op": "drop", "cols": [0, 1], "pred": None}))
+        cs.append(fork(mk("dense", plain, [["1", "2", "3"], ["0", "0", "0"]], [{"op": "encode", "seq": ["int", "int", "int"]}], [{"a": "iter"}]), {"op": "encode", "seq": ["int", "str", "int"]}))
+        cs.append(fork(mk("dense", {"wrap": "lazy", "loader": True}, [["1", "2", "3"], ["0", "0", "0"]], [{"op": "encode", "seq": ["int", "int", "int"]}], [{"a": "iter"}]), {"op": "encode", "seq": ["int", "dbl", "int"]}))
+        cs.append(fork(mk("dense", plain, [[1, 2, 3], [5, 5, 5]], [{"op": "label", "k": 0, "t": "c"}], [{"a": "iter"}, {"a": "label"}]), {"op": "label", "k": 2, "t": "c"}))
+        cs.append(fork(mk("dense", plain, [[1, 2, 3], [5, 5, 5]], [head, {"op": "label", "k": "a", "t": "c"}], [{"a": "iter"}, {"a": "label"}]), {"op": "label", "k": "b", "t": "c"}))
+        cs.append(fork(mk("sparse", plain, [[["a", 1], ["b", 2]], [["a", 0], ["b", 0]]], [{"op": "drop", "cols": ["a"], "pred": None}], [{"a": "items"}]), {"op": "drop", "cols": ["b"], "pred": None}))
+        cs.append(fork(mk("sparse", plain, [[["a", "1"], ["b", "2"]]], [{"op": "encode", "map": [["a", "int"], ["b", "int"]]}], [{"a": "items"}]), {"op": "encode", "map": [["a", "int"], ["b", "str"]]}))
+        cs.append(fork(mk("sparse", plain, [[[0, 1], [1, 2]], [[0, 3], [1, 3]]], [{"op": "head", "names": ["x", "y"]}], [{"a": "items"}]), {"op": "head", "names": ["y", "x"]}))
+        cs.append(fork(mk("sparse", plain, [[["a", 1], ["b", 2]], [["a", 3], ["b", 3]]], [{"op": "label", "k": "a", "t": "c"}], [{"a": "items"}, {"a": "label"}]), {"op": "label", "k": "b", "t": "c"}))
         # jagged sparse tables (theorem first_dict_counterexample): EncodeCatRows encodes the keys that are categorical in the FIRST dict
         ca, cb = {"cat": "p", "lv": ["p", "q"]}, {"cat": "q", "lv": ["p", "q"]}
         for t in ("string", "onehot", "onehot_tuple"):
@@ -2143,6 +2273,7 @@ class C13(Property):
                         if f["kind"] != "B":
                             f["what"] = ("table #%d of the case: " % (idx + 1)) + f["what"]
                 outs.append(o)
+            fk = run_fork(case)
         finally:
             sys.unraisablehook = hook
         fails, tags = [], []
@@ -2151,9 +2282,25 @@ class C13(Property):
                 f.pop("_k", None)
                 fails.append(f)
             tags += o["tags"]
+        if fk is not None:
+            top = case["stages"][-1]["op"]
+            tags.append("fork:" + top)
+            if "cmp" in fk:
+                tags.append("fork-compared:%d" % len(fk["cmp"]))
+                if any(not c["exp"] for c in fk["cmp"]):
+                    tags.append("fork-rows-differ")
+                for c in fk["cmp"]:
+                    if c["ab"] != c["exp"] or c["ba"] != c["exp"]:
+                        fails.append(F("B", "two pipelines forked from one table (last stage %s | %s over the same row objects): %s #%d: lazy_a == lazy_b gives %s, "
+                                            "lazy_b == lazy_a gives %s, the eager rows compare %s" % (
+                                                json.dumps(case["stages"][-1]), json.dumps(case["fork"]["stage"]), c["what"], c["i"], c["ab"], c["ba"], c["exp"]),
+                                       "%s:eq-across-forks:%s:%s" % (case["kind"], top, c["what"])))
+                        break
+            else:
+                tags.append("fork-skipped:" + (fk.get("skip") or "pipe-err"))
         tags.append("tables:%d" % len(outs))
         return {"fails": fails, "nontrivial": any(o["nontrivial"] for o in outs), "tags": tags,
-                "impl": [o["impl"] for o in outs], "model": [o["model"] for o in outs]}
+                "impl": [o["impl"] for o in outs] + ([{"fork": fk}] if fk is not None else []), "model": [o["model"] for o in outs]}
 
     def eval_table(self, case, real, et, driver, ans=None, req=None):
         fails, tags = [], []
@@ -2317,6 +2464,8 @@ class C13(Property):
 
     # -------------------------------------------------------------- shrinking
     def shrink(self, case):
+        if case.get("fork"):
+            yield {x: y for x, y in case.items() if x != "fork"}
         others = case.get("others") or []
         for k in range(len(others)):
             rest = others[:k] + others[k + 1:]
@@ -2372,6 +2521,7 @@ class C13(Property):
                 "for t, (real, et) in zip(tables_of(case), run_real_multi(case)):\n"
                 "    print('lazy :', real.get('pipe_err') or real.get('first'))\n"
                 "    print('eager:', [eager_access(et[t['ri']], a) for a in t['acc']] if et and t['ri'] < len(et) else et)\n"
+                "from props.c13 import run_fork\nprint('forks (exp = eager rows equal, ab / ba = lazy_a == lazy_b / lazy_b == lazy_a):', run_fork(case))\n"
                 % (os.environ.get("COBA_REPO", "/repo"), json.dumps(case)))
 
 
